@@ -55,3 +55,12 @@ Proof. vm_compute. reflexivity. Qed.
 (* fillna with a value that fits every block (0 into int64 / float64 blocks): the guard of C03_fillna_refines_when_fits holds *)
 Example ex_fill_fits : fill_fits resolve_dtype_t (DInt true 8) ex_tb.
 Proof. repeat constructor. Qed.
+
+(* clip with Frame bounds: receiver [2-D x2 | 1-D | 1-D], lower bound stored as [1-D | 2-D x3]: the request of width 2
+   pops the 1-D array, then splits the 3-wide array UNEVENLY (1 used, 2 pushed back) *)
+Example ex_clip_straddle :
+  M_clip_v ex_tb (Some [[[VInt 15; VInt 15]]; [[VInt 0; VInt 21]; [VFlt 2 1; VFlt 2 1]; [VInt 50; VInt 0]]]) None
+  = Ok [mk_block (DInt true 8) false [[VInt 15; VInt 15]; [VInt 20; VInt 21]];
+        mk_block (DFlt 8) true [[VFlt 2 1; VNaN]]; mk_block (DInt true 8) true [[VInt 50; VInt 41]]]
+  /\ take_cols [[1; 2]; [3; 4; 5]; [6]]%Z 3 = Some ([1; 2; 3]%Z, [[4; 5]; [6]]%Z).
+Proof. vm_compute. split; reflexivity. Qed.
